@@ -566,12 +566,36 @@ pub fn judge_mutant(index: u64, base: &Base, m: &Mutant, st: &mut Stats) {
     st.evaluations += 1;
     st.transitions += 2;
     // non-initial state: the genuine request has just been accepted on this very thread
-    {
+    let returned_parts = {
         let mut p = ProvSpec::standard().to_provider();
-        let _ = crate::sut::validate(&base.wire, &base.cfg, &mut p);
-    }
+        match crate::sut::validate(&base.wire, &base.cfg, &mut p) {
+            SutResult::Ok(ok) => Some(ok.parts),
+            _ => None,
+        }
+    };
     let case = Case { wire: m.wire.clone(), cfg: base.cfg.clone(), prov: m.prov.clone() };
     let j = e2e::judge(&case);
+    // the parts the validator handed back for the genuine request (whatever it left in them: extensions, rewritten
+    // fields), resubmitted with the mutated body: judged like the fresh mutated request
+    if let Some(parts) = returned_parts {
+        let body_only = m.wire.body != base.wire.body && m.wire.method == base.wire.method && m.wire.uri == base.wire.uri && m.wire.headers == base.wire.headers && matches!(&m.prov, ProvSpec::Derive(db) if db.iter().any(|(a, k)| a == e2e::ACCESS_KEY && k == e2e::SECRET)) && !base.cfg.fold;
+        if body_only && !crate::env::ambient_b() {
+            st.transitions += 1;
+            let req = http::Request::from_parts(parts, bytes::Bytes::from(m.wire.body.clone()));
+            let mut p = m.prov.to_provider();
+            let r = crate::sut::validate_http(req, &base.cfg, &mut p, 64);
+            if r.is_ok() && !j.reference.accepted() && !j.unspecified {
+                st.violation(Violation {
+                    index,
+                    what: "forgery-accepted:the-returned-parts-of-the-genuine-request-resubmitted-with-another-body".into(),
+                    case: json!({"e2e": case, "base": base.name, "mutation": m.label, "resubmitted_parts_of": Case { wire: base.wire.clone(), cfg: base.cfg.clone(), prov: ProvSpec::standard() }}),
+                    expected: "refused (the body is not the one the signature covers)".into(),
+                    observed: "Ok".into(),
+                    known: None,
+                });
+            }
+        }
+    }
     if let SutResult::Unbuildable(_) = j.sut {
         st.note("mutant-not-representable-in-http");
         return;
@@ -775,7 +799,7 @@ pub fn run(ctx: &Ctx) -> Report {
     Report {
         stats: st,
         rule: format!(
-            "{} validly signed base requests (carrier x options x token x shape, one shape carrying x-amz-content-sha256 / Content-Length / Content-MD5 as S3 clients do), each accepted by implementation and reference; for each, every single-component mutation: 13 methods; every URI position x every byte http admits ({} values) + 7 insertions + deletion per position; every header (signed — list-valued ones split at every list separator into two fields, adjacent fields of one name joined by 6 separators or swapped, each under HTTP/1.0, 1.1, 2 and 3; one value holds Latin-1 bytes, a UTF-8 sequence and the replacement character U+FFFD; another is valid UTF-8 made of replacement characters only —, unsigned, Authorization, date, token) position x 11 bytes (incl. 0xE8, 0xE9, 0xA0, 0xC3) + insertion + deletion, header removed/added/duplicated/renamed; every bit of every body byte, truncations, appends, byte-order marks / zero-width space / CR LF inserted into bodies; old signature transplanted onto requests re-signed with a changed instant (10 deltas, 5 renderings), date text, 12 scope near-misses, 5 access keys, signed-list drops/additions, token changes; provider key: all 256 single-bit flips, 5 off-by-one derivations, another secret; signature: every digit x 15 other values, upper case, every truncation, extensions, all hex strings of length <= 2{}. Finally the genuine request, a forged one under its signature (method / path / body changed) and the genuine one again are validated as two (thorough: three) futures multiplexed on one thread against a provider that is Pending first, in every order of polls. Each mutant is validated right after the genuine request was accepted on the same thread (so a remembered success cannot vouch for it). Oracle: the implementation may return Ok only if the reference verifier, run on the request as received with the key the provider handed out, accepts. states = distinct reference strings-to-sign (+ refusal stage); non-trivial = distinct (mutated request, provider)",
+            "{} validly signed base requests (carrier x options x token x shape, one shape carrying x-amz-content-sha256 / Content-Length / Content-MD5 as S3 clients do), each accepted by implementation and reference; for each, every single-component mutation: 13 methods; every URI position x every byte http admits ({} values) + 7 insertions + deletion per position; every header (signed — list-valued ones split at every list separator into two fields, adjacent fields of one name joined by 6 separators or swapped, each under HTTP/1.0, 1.1, 2 and 3; one value holds Latin-1 bytes, a UTF-8 sequence and the replacement character U+FFFD; another is valid UTF-8 made of replacement characters only —, unsigned, Authorization, date, token) position x 11 bytes (incl. 0xE8, 0xE9, 0xA0, 0xC3) + insertion + deletion, header removed/added/duplicated/renamed; every bit of every body byte, truncations, appends, byte-order marks / zero-width space / CR LF inserted into bodies; old signature transplanted onto requests re-signed with a changed instant (10 deltas, 5 renderings), date text, 12 scope near-misses, 5 access keys, signed-list drops/additions, token changes; provider key: all 256 single-bit flips, 5 off-by-one derivations, another secret; signature: every digit x 15 other values, upper case, every truncation, extensions, all hex strings of length <= 2{}. Finally the genuine request, a forged one under its signature (method / path / body changed) and the genuine one again are validated as two (thorough: three) futures multiplexed on one thread against a provider that is Pending first, in every order of polls. Each mutant is validated right after the genuine request was accepted on the same thread (so a remembered success cannot vouch for it); body mutants are also submitted as the Parts the validator returned for the genuine request combined with the mutated body (whatever the validator left in those parts cannot vouch for another body). Oracle: the implementation may return Ok only if the reference verifier, run on the request as received with the key the provider handed out, accepts. states = distinct reference strings-to-sign (+ refusal stage); non-trivial = distinct (mutated request, provider)",
             bs.len(), uri_bytes.len(),
             if thorough { "; plus all pairs over ~600 strided mutation sites on four bases" } else { "" }
         ),
@@ -785,5 +809,42 @@ pub fn run(ctx: &Ctx) -> Report {
             "only the soundness direction is judged here (Ok => reference accepts); the other direction is C02's, error kinds are C13's (they are counted in notes)".into(),
         ],
         extra: json!({}),
+    }
+}
+
+/// Replay of a "returned parts resubmitted with another body" violation.
+pub fn replay_resubmit(case: &serde_json::Value) -> i32 {
+    let genuine: Case = match serde_json::from_value(case["resubmitted_parts_of"].clone()) {
+        Ok(c) => c,
+        Err(e) => {
+            eprintln!("replay: cannot decode the genuine request: {}", e);
+            return 2;
+        }
+    };
+    let mutant: Case = match serde_json::from_value(case["e2e"].clone()) {
+        Ok(c) => c,
+        Err(e) => {
+            eprintln!("replay: cannot decode the mutated request: {}", e);
+            return 2;
+        }
+    };
+    let mut p = genuine.prov.to_provider();
+    let parts = match crate::sut::validate(&genuine.wire, &genuine.cfg, &mut p) {
+        SutResult::Ok(ok) => ok.parts,
+        other => {
+            println!("the genuine request is not accepted ({}): nothing to resubmit", other.label());
+            return 2;
+        }
+    };
+    let req = http::Request::from_parts(parts, bytes::Bytes::from(mutant.wire.body.clone()));
+    let mut p = mutant.prov.to_provider();
+    let r = crate::sut::validate_http(req, &mutant.cfg, &mut p, 64);
+    println!("genuine request accepted; its returned parts resubmitted with a body of {} bytes (signed body: {} bytes): {}", mutant.wire.body.len(), genuine.wire.body.len(), r.label());
+    if r.is_ok() {
+        println!("disagreement: a body the signature does not cover was accepted");
+        1
+    } else {
+        println!("agrees");
+        0
     }
 }
